@@ -4,7 +4,7 @@
      permutation equivariance, mesh expansion.
    Part B (R): the returned values are d.lambda and k.lambda with K lambda = k; linearity, reproduction
      of constants and drifts, invariance under permutation of the conditioning points. *)
-From Coq Require Import Reals Lra Lia Arith List Bool Permutation ZArith.
+From Coq Require Import Reals Lra Lia Arith List Bool Permutation ZArith Sorted.
 From GS Require Import Num Loops Krigesum_gen C15_KernelSpec C15_SummatorProofs C05_Mat C05_RInst C05_Model.
 Import ListNotations.
 
@@ -178,6 +178,34 @@ Proof.
     apply IH; auto; lia.
 Qed.
 End Generic.
+
+(* ---- the polynomial drift basis (get_drift_functions with "linear" / "quadratic" / an integer order):
+   exactly the monomials of degree 1..order with non-decreasing coordinate indices below dim *)
+Lemma cwr_spec dim k lo sel : In sel (cwr dim k lo) ->
+  length sel = k /\ Forall (fun i => lo <= i < dim) sel /\ Sorted.StronglySorted le sel.
+Proof.
+  revert lo sel. induction k as [|k IH]; intros lo sel H; simpl in H.
+  - destruct H as [<-|[]]. repeat split; constructor.
+  - apply in_flat_map in H. destruct H as [i [Hi H]]. apply in_seq in Hi.
+    apply in_map_iff in H. destruct H as [r [<- Hr]]. destruct (IH i r Hr) as (L & B & So).
+    repeat split.
+    + simpl. now rewrite L.
+    + constructor; [lia|]. eapply Forall_impl; [|exact B]. simpl. intros a Ha. lia.
+    + constructor; auto. eapply Forall_impl; [|exact B]. simpl. intros a Ha. lia.
+Qed.
+Theorem drift_basis_spec dim order sel : In sel (drift_selects dim order) ->
+  1 <= length sel <= order /\ Forall (fun i => i < dim) sel /\ Sorted.StronglySorted le sel.
+Proof.
+  unfold drift_selects. intros H. apply in_flat_map in H. destruct H as [d [Hd H]]. apply in_seq in Hd.
+  destruct (cwr_spec dim (S d) 0 sel H) as (L & B & So). repeat split; auto; try lia.
+  eapply Forall_impl; [|exact B]. simpl. intros a Ha. lia.
+Qed.
+Example drift_basis_quadratic_2d : drift_selects 2 2 = [[0]; [1]; [0; 0]; [0; 1]; [1; 1]].
+Proof. reflexivity. Qed.
+Example drift_basis_cubic_1d : drift_selects 1 3 = [[0]; [0; 0]; [0; 0; 0]].
+Proof. reflexivity. Qed.
+Example drift_basis_count_3d : length (drift_selects 3 2) = 9 /\ length (drift_selects 2 3) = 9.
+Proof. split; reflexivity. Qed.
 
 (* ====================================================================== Part B: over R *)
 Open Scope R_scope.
